@@ -8,4 +8,12 @@ PROPS = {
         "rule": "roundtrip of sampled ids (3/4 in the 10^7 id space, 1/4 any u32) + all border ids; parse of structured strings (valid renderings with other 3-byte prefixes, overflow region, signs, leading zeros) and random strings over an alphabet with 1-4 byte chars at every offset; distinct = distinct op lists; every case non-trivial",
         "assumptions": ["Rust u32::from_str grammar: optional '+', decimal digits, overflow is an error", "Display {:07} pads with zeros to at least 7 digits"],
     },
+    "C04": {
+        "rule": "small ontologies (2..16 terms + disconnected obsolete terms on the bytes path; shapes chain/tree/ladder/shortcut/multi-root/random; builder path or binary v1-v3) whose three annotation kinds have pairwise different record totals, with a term linked to every record of a kind (ic = -0.0), copied annotation sets (Mutation = 1 on distinct terms), kinds without records; for every ontology ALL ordered pairs of terms x 8 algorithms x 3 kinds, the algorithm selected through Builtins::new with a random documented name/alias in random case, plus non-existing names; distinct = distinct op lists; non-trivial = >= 3 terms, >= 1 inherited annotation, >= 2 kinds with >= 2 records, and (a multi-parent node or several roots or obsolete/replaced terms)",
+        "assumptions": [
+            "C03's conclusions about the information content (0 <= ic; ic of an ancestor <= ic of a term with positive ic) are hypotheses of the theorems, as is the sortedness of ancestor groups / annotation sets (C12/C01)",
+            "the ASCII lower-casing of the model equals str::to_lowercase on the generated (ASCII + a few unaffected non-ASCII) names",
+        ],
+        "partial": "theorems are over the reals with checked division (zero denominators are `none`); f32 rounding, overflow and the accuracy of logf/expf are NOT modelled and are covered only by the tolerance (4 ulp / 1e-6 relative) of the correspondence check; symmetry / finite / >= 0 / special cases are additionally checked bit-exactly on the implementation by the harness; the distance itself (distance_to_term) is an input of the Distance theorems (its symmetry is C11's subject)",
+    },
 }
